@@ -7,7 +7,7 @@ Line-protocol encoding shared by the C07 and C08 drivers (see harness/c08/proto.
 * `ns`: `c` (jabber:client) or `s` (jabber:server); `localBare`: hex;
 * `jidmap`: `,`-joined `hexvalue=hexcanon` (or `hexvalue=X` when the value does not parse);
 * `toks`: token list (Prelude/Xml.lean);
-* `progs`: `/`-joined programs, each `ret,op,op,…` with `ret` ∈ ok|fail|eof and `op` = `r` or
+* `progs`: `/`-joined programs, each `ret,op,op,…` with `ret` ∈ ok|fail|eof|readerr and `op` = `r` or
   `w<toks>` (`w-` writes nothing);
 * invocations: `/`-joined `start,obs,obs…` with obs = `t<tok>` | `e` | `z`;
 * written: `/`-joined element summaries `loc,type,id,to,su,nstart` (fields hex);
@@ -22,7 +22,8 @@ def decOp (s : String) : Option Op :=
   else none
 
 def decRet (s : String) : Option Ret :=
-  if s == "ok" then some .ok else if s == "fail" then some .fail else if s == "eof" then some .eof else none
+  if s == "ok" then some .ok else if s == "fail" then some .fail else if s == "eof" then some .eof
+  else if s == "readerr" then some .readErr else none
 
 def decProg (s : String) : Option Prog :=
   match s.splitOn "," with
